@@ -117,7 +117,11 @@ func main() {
 		fams := []string{"basic", "values", "origins", "keys-element", "deletes", "multi"}
 		if o.Thorough() {
 			for rep := 0; rep < 20; rep++ {
-				for _, f := range append(fams, "undecodable", "nonpf") {
+				fs := append(append([]string{}, fams...), "undecodable", "nonpf")
+				if rep%3 == 0 {
+					fs = append(fs, "reconnect", "burst") // slower families: every third round
+				}
+				for _, f := range fs {
 					cases = append(cases, genScenario(r.Fork(), f, true))
 				}
 			}
@@ -130,7 +134,7 @@ func main() {
 					cases = append(cases, genScenario(r.Fork(), f, false))
 				}
 			}
-			for _, f := range []string{"undecodable", "nonpf"} {
+			for _, f := range []string{"undecodable", "nonpf", "reconnect", "reconnect", "burst", "burst"} {
 				cases = append(cases, genScenario(r.Fork(), f, false))
 			}
 		}
@@ -208,6 +212,8 @@ func main() {
 			switch {
 			case op.Subscribe:
 				meta.Hist("op:subscribe-point")
+			case op.Break:
+				meta.Hist("op:stream-failure")
 			case op.N == nil:
 				meta.Hist("op:sync")
 			default:
